@@ -256,6 +256,7 @@ class LoopSpec:
         self.decreases = None
         self.modifies = None
         self.flags = set()
+        self.exit_ensures = []      # checked on every edge leaving the loop (normal end and break), not on return
 
 
 class FuncSpec:
@@ -296,6 +297,8 @@ class FuncSpec:
             yield c
         for l in self.loops.values():
             for c in l.invariants:
+                yield c
+            for c in l.exit_ensures:
                 yield c
             if l.decreases:
                 yield l.decreases
@@ -402,7 +405,7 @@ def logical_lines(path, go_file):
 
 KEYWORDS = ('func', 'iface', 'assume', 'spec', 'lemma', 'axiom', 'const', 'arith', 'ghost', 'requires', 'ensures',
             'modifies', 'nonnil', 'loop', 'invariant', 'decreases', 'param', 'inline', 'assert-call', 'trusted',
-            'args', 'results', 'report', 'using', 'flag', 'pure', 'import', 'assert-at', 'set-at', 'set-after', 'owns', 'fork',
+            'args', 'results', 'report', 'using', 'flag', 'pure', 'import', 'assert-at', 'set-at', 'set-after', 'exit-ensures', 'owns', 'fork',
             'deterministic', 'guarded', 'send', 'closes', 'call', 'alias', 'recv')
 
 
@@ -606,6 +609,11 @@ def parse_file(path, specs, pkgpath=None, go_file=True, allow_assume=False):
                     cur_loop.flags.update(rest.split())
                 else:
                     (cur if cur is not cur_top else cur_top).flags.update((rest or kw).split())
+            elif kw == 'exit-ensures':
+                if cur_loop is None:
+                    raise ParseError('exit-ensures outside of a loop block: ' + text)
+                lab, e = split_label(rest)
+                cur_loop.exit_ensures.append(Clause('exit-ensures', e, lab, ln, where))
             elif kw in ('set-at', 'set-after'):
                 # set-at "source text of the anchored line": ghost := expr   |   ghost[index] := expr
                 ma = re.match(r'^"((?:[^"\\]|\\.)*)"\s*:\s*(\w+)\s*(?:\[(.*?)\])?\s*:=\s*(.*)$', rest, re.S)
